@@ -9,6 +9,7 @@
      open <v> <S> <tx key> <pos> (es <mask32> <amount32> | eb <amount8>) <commitment>
           -> OK <amount> <mask> | NONE | NOPOINT                         EcdhInfo::open_commitment
      subkey_check <v> <S> <maj_lo> <maj_hi> <min_lo> <min_hi> <pos> <P> <tx key> -> OK <maj> <min> | NONE   SubKeyChecker::check
+     txout_key <txout hex> -> OK <key|-> | ERR                          TxOut::get_one_time_key
      build_scan <scenario> (MODEL ONLY)  runs Spec/Sender.v and assembles a transaction; see `p_scenario` below. *)
 From MRS Require Import Model.Base Model.EdInst Model.Keys Model.Derive Model.Subaddr Model.Codec Model.Show Model.Extra
                         Model.Ecdh Model.Scan Model.OpsBasic Model.OpsCurve.
@@ -320,6 +321,14 @@ Definition ops_scan (op : string) (args : list string) : option string :=
   else if String.eqb op "subkey_check" then
     match args with
     | [v; Sp; a; b; c; d; pos; P; k] => op_subkey_check v Sp a b c d pos P k
+    | _ => None end
+  else if String.eqb op "txout_key" then
+    (* deserialize::<TxOut>(bytes), then TxOut::get_one_time_key: the target key when PublicKey::from_slice accepts it *)
+    match args with
+    | [h] => with_hex h (fun b =>
+        Some (match deserialize dec_txout b with
+              | Ok o => join_sp ["OK"; opt_tok hx (as_one_time_key (o_target o))]
+              | Err _ => "ERR" | Panic => "PANIC" end))
     | _ => None end
   else if String.eqb op "build_scan" then
     p_all p_scenario args
